@@ -117,6 +117,34 @@ def work(item):
             if any(k == "s" and (a is None or (isinstance(a, str) and any(ord(ch) > 126 or ord(ch) < 32 for ch in a))) for k, a in zip(kinds, args)) or any(a == "cNULL" for a in args):
                 continue
             plan.append((fn, kinds, args))
+    # neighbour runs: consecutive calls that differ in exactly one argument (base, variant, base, variant ...), so that anything one
+    # implementation remembers between calls under an incomplete key shows up as a difference from the stateless other one
+    import random
+    rng = random.Random(mix(seed, "c19n", tag))
+    byfn = {}
+    for fn, kinds, args in plan:
+        byfn.setdefault(fn, []).append((kinds, args))
+    for fn in sorted(byfn):
+        ent = byfn[fn]
+        if len(ent) < 3 or len(ent[0][0]) < 2:
+            continue
+        for _ in range(12 if quick else 60):
+            kinds, base = rng.choice(ent)
+            pos = [i for i, k in enumerate(kinds) if k in ("i", "d")]
+            if not pos:
+                break
+            i = rng.choice(pos)
+            alts = [a[i] for k2, a in rng.sample(ent, min(len(ent), 6)) if k2 == kinds and a[i] != base[i]][:2]
+            if kinds[i] == "d" and isinstance(base[i], float) and base[i] > 0:
+                alts.append(base[i] * rng.choice((0.5, 0.9, 1.1)))
+            for alt in alts:
+                v = list(base)
+                v[i] = alt
+                if near_discontinuity(v):
+                    continue
+                plan.append((fn, kinds, base))
+                plan.append((fn, kinds, tuple(v) if isinstance(base, tuple) else v))
+                st.cls("neighbour_pairs")
     lines = [calls.line(fn, k, a) for fn, k, a in plan]
     out_c, rc, err = calls.run(exe, "simple", lines, sdir, tag + "_c")
     cf = os.path.join(sdir, "calls_%s_c.txt" % tag)
@@ -190,7 +218,8 @@ def run(ctx):
     ctx.stats.merge(common.pmap(work, items))
     ctx.rule = ("one argument stream per function: the C03 sweep (budget %d per function in configuration B, a quarter in A; discrete classes exhaustive "
                 "where the product fits, else seeded sampling covering every class value) over the %d functions that exist both as C prototype and as "
-                "public static Java method; strings restricted to printable ASCII, NULL not expressible. Same outcome class required (value vs "
+                "public static Java method; strings restricted to printable ASCII, NULL not expressible; followed by neighbour runs (consecutive calls differing in one argument; "
+                "the Java harness keeps one Crystal_Struct object per crystal for the whole stream). Same outcome class required (value vs "
                 "exception); values within 1e-9 relative (+ a small absolute term for sign-changing quantities), strings/ints exact. "
                 "non-trivial = both succeed on a computed quantity (not a plain table cell), distinct by (function, arguments)" % (budget, ctx.extra.get("java_methods_compared", 0)))
     ctx.assumptions = ["exception type and message equality are recorded but not judged (the property only requires 'throws iff')",
